@@ -47,15 +47,15 @@ class Unit:
         self.slices = slices or {}
 
 
-def run_unit(unit, fn_override=None):
+def run_unit(unit, fn_override=None, canary_expect=None):
     """returns dict with obligations aggregated by name."""
     repo = Repo()
     eng = Engine(repo, schema=unit.schema, inline=unit.inline, unit=unit.name,
-                 fn_override=fn_override)
+                 fn_override=fn_override, canary_expect=canary_expect)
     t0 = time.time()
     res = {'unit': unit.name, 'error': None, 'obligations': {}, 'paths': 0}
     try:
-        eng.run(unit.thunk)
+        eng.run_catching(unit.thunk)
     except (EngineError, Unresolved) as e:
         res['error'] = '%s: %s' % (e.__class__.__name__, e)
     except RecursionError as e:
@@ -108,7 +108,7 @@ def _run_unit_job(args):
             return (unit_name, canary_name, {'error': 'canary mutation did not apply', 'obligations': {}})
     except Unresolved as e:
         return (unit_name, canary_name, {'error': 'Unresolved: %s' % e, 'obligations': {}})
-    return (unit_name, canary_name, run_unit(unit, {can.qual: mutated}))
+    return (unit_name, canary_name, run_unit(unit, {can.qual: mutated}, canary_expect=list(can.expect)))
 
 
 def load_known_findings():
